@@ -62,12 +62,29 @@ func smp(s sample) string {
 	return "wS " + hl(uint64(s.st)) + " " + hl(uint64(s.t)) + " " + hl(s.v)
 }
 
+// chunked prints a long list as ([..] ++ [..] ++ ...) with pieces of at most n elements: Coq's
+// parser recurses once per element of a list literal and overflows its stack on very long ones.
+func chunked(items []string, n int) string {
+	if len(items) <= n {
+		return gallina.List(items)
+	}
+	var parts []string
+	for i := 0; i < len(items); i += n {
+		j := i + n
+		if j > len(items) {
+			j = len(items)
+		}
+		parts = append(parts, gallina.List(items[i:j]))
+	}
+	return "(" + strings.Join(parts, " ++ ") + ")"
+}
+
 func smpList(ss []sample) string {
 	it := make([]string, len(ss))
 	for i, s := range ss {
 		it[i] = smp(s)
 	}
-	return gallina.List(it)
+	return chunked(it, 2000)
 }
 
 func bytesList(b []byte) string {
@@ -75,7 +92,7 @@ func bytesList(b []byte) string {
 	for i, v := range b {
 		it[i] = strconv.Itoa(int(v))
 	}
-	return gallina.List(it)
+	return chunked(it, 4000)
 }
 
 const staleNaN = 0x7ff0000000000002
@@ -492,6 +509,28 @@ func runCase(enc chunkenc.Encoding, segs []seg, acts []action) (res result) {
 	return res
 }
 
+// probeGrow panics unless appending [next] to a chunk holding [prefix] grows the byte slice by
+// exactly [want] bytes (which, for the probes used, happens only if the bit stream of the
+// prefix ends on a byte boundary).
+func probeGrow(enc chunkenc.Encoding, prefix []sample, next sample, want int) {
+	c, err := chunkenc.NewEmptyChunk(enc)
+	if err != nil {
+		panic(err)
+	}
+	app, err := c.Appender()
+	if err != nil {
+		panic(err)
+	}
+	for _, s := range prefix {
+		app.Append(s.st, s.t, math.Float64frombits(s.v))
+	}
+	before := len(c.Bytes())
+	app.Append(next.st, next.t, math.Float64frombits(next.v))
+	if got := len(c.Bytes()) - before; got != want {
+		panic(fmt.Sprintf("corpus prefix is not byte aligned: grew by %d bytes, want %d", got, want))
+	}
+}
+
 func genActs(r *gen.Rand, ts []int64) []action {
 	n := r.Intn(14) + 3
 	acts := make([]action, 0, n)
@@ -522,7 +561,7 @@ func main() {
 	f := gallina.ParseFlags()
 	meta := gallina.NewMeta("C10", f.Seed, f.Tier)
 	meta.Rule = "corpus + seeded sequences per encoding (XOR, XOR2): timestamps increasing with delta-of-delta drawn from the bucket edges (13/14/17/20/64 bit, +-1), huge, arbitrary int64 and non-monotonic; values constant/counter/gauge/random bits/chosen xor windows/stale-NaN mixes/specials; start timestamps none/constant/late/jitter/edges/arbitrary/resets; appender re-obtained at random cuts (same object or from bytes); Next/Seek script. non-trivial = at least 3 samples and at least one non-zero delta-of-delta or value change; distinct by (encoding, samples, cuts, script)"
-	cf := &gallina.CaseFile{Dir: f.Out, Type: "case", PerShard: f.Count(33, 160),
+	cf := &gallina.CaseFile{Dir: f.Out, Type: "case", PerShard: f.Count(35, 160),
 		Preamble: "From Coq Require Import List ZArith Uint63.\nFrom Verif Require Import lib.Int64 lib.Bits model.Xor corr.CorrC10.\nImport ListNotations.\nOpen Scope uint63_scope.\n",
 		Footer:   gallina.StdFooter}
 	id := 0
@@ -606,7 +645,9 @@ func main() {
 		}
 		d.Shape = encS + "/" + d.TsMode
 		if xorFromBytes {
-			d.Shape = "xor-append-after-reload-from-bytes"
+			// regression class of the fixed defect "XORChunk.Appender does not restore the write
+			// position on a chunk reloaded from bytes" (ordinary cases now)
+			meta.Hit("xor-append-after-reload-from-bytes")
 		}
 		nontrivial := false
 		if len(all) >= 3 {
@@ -695,6 +736,33 @@ func main() {
 			emit(enc, []seg{{ss: all}}, []action{{seek: true, t: 126500}, {}, {}}, desc{Corpus: fmt.Sprintf("st-change-at-%d", k), TsMode: "corpus", ValMode: "corpus", StMode: "constant-then-change"})
 			emit(enc, []seg{{ss: all[:128]}, {fromBytes: enc == chunkenc.EncXOR2, ss: all[128:]}}, nil, desc{Corpus: fmt.Sprintf("st-change-at-%d-reopen-128", k), TsMode: "corpus", ValMode: "corpus", StMode: "constant-then-change"})
 		}
+		// write position exactly on a byte boundary at the re-open (bstream.count == 0, so the
+		// reader must report valid == 0, not 8 or 64): one sample = varint + 64 bits; two samples
+		// with a value delta whose new-window encoding completes the byte (XOR: 2+5+6+27 bits for
+		// delta 1<<6, XOR2: 3+5+6+26 bits for delta 1<<7).  probeGrow asserts the alignment on the
+		// real chunk: the next sample makes the byte slice grow by exactly the aligned amount.
+		{
+			v2 := uint64(1 << 6)
+			if enc == chunkenc.EncXOR2 {
+				v2 = 1 << 7
+			}
+			one := mk([]int64{1000}, []uint64{f64(1.5)}, nil)
+			two := mk([]int64{1000, 2000}, []uint64{0, v2}, nil)
+			probeGrow(enc, one, sample{t: 2000, v: f64(1.5)}, 3) // uvarint(1000) = 2 bytes, then 1 bit
+			probeGrow(enc, two, sample{t: 3000, v: v2}, 1)       // dod = 0, value unchanged: 1-2 bits
+			tail1 := mk([]int64{2000, 3007, 4000}, []uint64{f64(1.5), f64(2.5), f64(2.5)}, nil)
+			tail2 := mk([]int64{3000, 4007, 5000}, []uint64{v2, f64(2.5), f64(2.5)}, nil)
+			for _, fb := range []bool{false, true} {
+				kind := "same-object"
+				if fb {
+					kind = "from-bytes"
+				}
+				emit(enc, []seg{{ss: one}, {fromBytes: fb, ss: tail1}}, []action{{seek: true, t: 3000}}, desc{Corpus: "reopen-on-byte-boundary-1-" + kind, TsMode: "corpus", ValMode: "corpus", StMode: "none"})
+				emit(enc, []seg{{ss: two}, {fromBytes: fb, ss: tail2}}, []action{{seek: true, t: 4000}}, desc{Corpus: "reopen-on-byte-boundary-2-" + kind, TsMode: "corpus", ValMode: "corpus", StMode: "none"})
+				// twice in a row, nothing appended in between
+				emit(enc, []seg{{ss: two}, {fromBytes: fb}, {fromBytes: fb, ss: tail2}}, nil, desc{Corpus: "reopen-on-byte-boundary-twice-" + kind, TsMode: "corpus", ValMode: "corpus", StMode: "none"})
+			}
+		}
 		// extreme timestamps: deltas that wrap int64
 		emit(enc, []seg{{ss: mk([]int64{math.MinInt64, math.MaxInt64, math.MinInt64, 0, math.MaxInt64}, []uint64{0, math.MaxUint64, staleNaN, staleNaN, 1}, nil)}}, nil, desc{Corpus: "int64-extremes", TsMode: "corpus", ValMode: "corpus", StMode: "none"})
 	}
@@ -742,11 +810,6 @@ func main() {
 			}
 			segs = append(segs, seg{fromBytes: kind, ss: all[start:cut]})
 			kind = r.Chance(1, 2)
-			if enc == chunkenc.EncXOR {
-				// the classic XOR appender does not restore the write position after FromData
-				// (see notes/C10.md); keep these histories to a small share of the cases
-				kind = r.Chance(1, 12)
-			}
 			start = cut
 		}
 		segs = append(segs, seg{fromBytes: kind, ss: all[start:]})
